@@ -49,10 +49,10 @@ def make(cfg_in):
         bag = cfg['bag'] and not tok_mode
         Lt = scenario.build_table(c, 'L', cfg['nl'], cfg['k'], cfg['kmin'], cfg['missing'], bag,
                                   cfg['nonempty'], col_order[0] if col_order else None,
-                                  index=idx[0] if idx else None, extra=cfg['extra'])
+                                  index=list(idx[0])[:cfg['nl']] if idx else None, extra=cfg['extra'])
         Rt = scenario.build_table(c, 'R', cfg['nr'], cfg['k'], cfg['kmin'], cfg['missing'], bag,
                                   cfg['nonempty'], col_order[1] if col_order else None,
-                                  index=idx[1] if idx else None, extra=cfg['extra'])
+                                  index=list(idx[1])[:cfg['nr']] if idx else None, extra=cfg['extra'])
         lo, ro = _opt(c, 'outattrs', cfg['out_attrs'])
         s = dict(entry=entry, filter=cfg['filter'], measure=measure, kind=cfg['kind'],
                  threshold=_opt(c, 'thr', cfg['thresholds']),
